@@ -515,6 +515,17 @@ class PoolManager(RequestMethods):
             for header in kw["headers"]:
                 if header.lower() in retries.remove_headers_on_redirect:
                     new_headers.pop(header, None)
+            if any(
+                header.lower() in retries.remove_headers_on_redirect
+                for header in new_headers
+            ):
+                # A mapping whose pop() cannot remove everything it iterates
+                # over (e.g. collections.ChainMap only pops from its first map).
+                new_headers = {
+                    header: kw["headers"][header]
+                    for header in kw["headers"]
+                    if header.lower() not in retries.remove_headers_on_redirect
+                }
             kw["headers"] = new_headers
 
         try:
